@@ -180,6 +180,28 @@ def extra(rng, tier):
         wants.append([float(P(Fr(v))) for v in vs])
         hs = [b - a for a, b in zip(us, us[1:])]
         tols.append(1e-9 * (max(abs(v) for v in flat) + 1.0) * (max(hs) / min(hs)) ** 2 * (1 + 100 * ext))
+    # long axes (seed C16-r11m1: an elimination whose row scale factors grow like (3.7*dx)^i and are never renormalised — they leave the
+    # number range after ~540 rows at unit spacing, ~100 rows at spacings of 2^+-10, ~70 rows at f32): a cubic in u = (x - x0)/(xn - x0)
+    n_short = len(lines)
+    for _ in range(gen.N(tier, 6, 60)):
+        S = rng.choice(["F", "F", "G"])
+        rd = (lambda v: v) if S == "F" else vlib.f32_round
+        h = rng.choice([1.0, 1024.0, 1.0 / 1024])
+        n = (rng.choice([600, 900]) if h == 1.0 else rng.choice([110, 130, 200])) if S == "F" else rng.choice([80, 120])
+        steps = [h * (1.0 if rng.random() < 0.85 else rng.choice([0.5, 2.0])) for _ in range(n - 1)]
+        xs = [0.0]
+        for s_ in steps:
+            xs.append(xs[-1] + s_)
+        kind = rng.choice(["nak", "nak", "nat"])
+        coef = [rng.randint(-5, 5) for _ in range(4 if kind == "nak" else 2)]
+        span = xs[-1]
+        P = lambda x: sum(c * (x / span) ** i for i, c in enumerate(coef))
+        flat = [rd(P(x)) for x in xs]
+        ks = sorted({0, 1, n // 2, n - 2} | {rng.randrange(n - 1) for _ in range(6)})
+        qs = [xs[k] + (xs[k + 1] - xs[k]) * rng.choice([0.25, 0.5, 0.75]) for k in ks] + [xs[0], xs[-1]]
+        lines.append(i1_line(S, xs, [n], flat, ("spl", False, kind), e_array(S, [len(qs)], qs)))
+        wants.append([P(q) for q in qs])
+        tols.append((1e-8 if S == "F" else 5e-3) * (max(abs(v) for v in flat) + 1.0))
     outs = vlib.run_impl_only(ID, lines, tag="f64poly")
     fails, worst = [], 0.0
     for line, out, want, tol in zip(lines, outs, wants, tols):
@@ -194,7 +216,7 @@ def extra(rng, tier):
                               "required": f"f64: the polynomial's value {w} must be reproduced up to rounding, got {g} (error {err:.3e} > tolerance {tol:.3e})"})
                 break
             worst = max(worst, err / tol)
-    return {"evaluations": len(lines), "nontrivial": len(lines), "failures": fails[:20], "hist": {"f64_polynomial_cases": len(lines)},
+    return {"evaluations": len(lines), "nontrivial": len(lines), "failures": fails[:20], "hist": {"f64_polynomial_cases": n_short, "long_axis_polynomial_cases": len(lines) - n_short},
             "notes": [f"worst f64 error / tolerance = {worst:.3e}"]}
 
 
